@@ -15,7 +15,8 @@
 //                     call of loop() (one line per further call)
 //   T <acts>          one line per foreign thread
 //   S <id> <acts>     script of task / callback <id>
-//   H <h1> <h2> ...   kind=pool: hash codes
+//   H <h1> <h2> ...   kind=pool: hash codes (after the `calls` getNextLoop calls)
+//   O <ops>           kind=pool: a mixed call sequence instead: n = getNextLoop(), h<code> = getLoopForHash(code)
 //   end
 // acts (separated by ';'):  q <t> | r <t> | quit | ev <k> | pt | start | destroy | -
 // Output: "case <id>", scheduler lines (t/c/e/d, DEADLOCK, STEPLIMIT, schedule), "STUCK ..." when the
@@ -65,6 +66,7 @@ struct CaseDesc
   std::vector<Prog> threads;
   std::map<int, Prog> scripts;
   std::vector<unsigned long> hashes;
+  std::vector<string> pops;
 };
 
 static CaseDesc* g_case;
@@ -176,6 +178,7 @@ static void observe(string& line)
   else
     snprintf(buf, sizeof buf, " dead");
   line += buf;
+  if (g_elt) line += g_elt->loop_ != NULL ? " lp=1" : " lp=0";
   if (!strcmp(kind, "tmo") && !strcmp(obj, "poll"))
   {
     // nothing can run and the only way on is the poll time-out: report instead of "sleeping"
@@ -222,7 +225,7 @@ static void initCallback(EventLoop* loop)
   g_wakefd = loop->wakeupFd_;
   g_child_idx = sched::self();
   g_child_tid = muduo::CurrentThread::tid();
-  sched::log("loop created wake=f%d", g_wakefd);
+  sched::log("loop created wake=f%d qm=m%d", g_wakefd, sched::name_mutex(loop->mutex_.getPthreadMutex()));
 }
 
 static void runActs(const Prog& p)
@@ -239,6 +242,9 @@ static void runActs(const Prog& p)
     else if (a.op == "start")
     {
       g_elt = new EventLoopThread(initCallback, "elt");
+      sched::log("elt created latch=m%d,c%d elt=m%d,c%d", sched::name_mutex(g_elt->thread_.latch_.mutex_.getPthreadMutex()),
+                 sched::name_cond(&g_elt->thread_.latch_.condition_.pcond_),
+                 sched::name_mutex(g_elt->mutex_.getPthreadMutex()), sched::name_cond(&g_elt->cond_.pcond_));
       EventLoop* got = g_elt->startLoop();
       sched::log("started nonnull=%d same=%d owner=%s", got != NULL, got == g_loop,
                  got && got->threadId_ == g_child_tid && g_child_tid != muduo::CurrentThread::tid() ? "child" : "WRONG");
@@ -347,6 +353,17 @@ static void runPoolCase(const CaseDesc& c)
         s += b;
       }
       printf("%s\n", s.c_str());
+      if (!c.pops.empty())
+      {
+        s = "ops";
+        for (size_t k = 0; k < c.pops.size(); ++k)
+        {
+          EventLoop* l = c.pops[k] == "n" ? pool.getNextLoop() : pool.getLoopForHash(strtoul(c.pops[k].c_str() + 1, NULL, 10));
+          snprintf(b, sizeof b, " %d", idx.count(l) ? idx[l] : -2);
+          s += b;
+        }
+        printf("%s\n", s.c_str());
+      }
       // every loop accepts a task and runs it on its own thread
       if (c.n > 0)
         for (size_t i = 0; i < all.size(); ++i) all[i]->runInLoop(std::bind(poolTask, static_cast<int>(i)));
@@ -485,6 +502,7 @@ int main()
     else if (w[0] == "T") c.threads.push_back(parseActs(w, 1));
     else if (w[0] == "S" && w.size() >= 2) c.scripts[atoi(w[1].c_str())] = parseActs(w, 2);
     else if (w[0] == "H") for (size_t i = 1; i < w.size(); ++i) c.hashes.push_back(strtoul(w[i].c_str(), NULL, 10));
+    else if (w[0] == "O") for (size_t i = 1; i < w.size(); ++i) c.pops.push_back(w[i]);
   }
   return 0;
 }
